@@ -637,7 +637,9 @@ func ruleQuoteAlphabet(p *Prog, r *Report) {
 	// (a) characters written verbatim
 	sites := stringRangeSites(fn)
 	key := rule + ":ast.(*ASCIINode).String:verbatim-set"
+	evalGood := false
 	if d, decided, good := asciiPrintsReadable(p, fn); decided {
+		evalGood = good
 		if good {
 			r.ok(rule, key, pos, d)
 		} else {
@@ -743,7 +745,9 @@ func ruleQuoteAlphabet(p *Prog, r *Report) {
 			}
 		}
 	}
-	if len(leaks) > 0 {
+	if len(leaks) > 0 && evalGood && onlyIndexedOrSliced(leaks) {
+		r.ok(rule, key2, pos, "pieces of the value (indexed or sliced) are written to the output; the evaluation over every character, every predecessor class and the longer mixed strings shows that what is written verbatim holds only characters a quoted run may hold")
+	} else if len(leaks) > 0 {
 		r.bad(rule, key2, pos, "the string value reaches the printed form without passing the per-character filter ("+strings.Join(uniq(leaks), "; ")+"): a double quote or control character inside it would be printed verbatim")
 	} else {
 		r.ok(rule, key2, pos, "the value is only ranged over, measured or compared; every character goes through the per-character filter")
@@ -927,6 +931,7 @@ func asciiPrintsReadable(p *Prog, fn *ssa.Function) (detail string, decided, goo
 	for c := 0; c < 128; c++ {
 		values = append(values, string(rune(c)))
 	}
+	values = append(values, "abcdefgh", "abcdefghijklmnop", strings.Repeat("xy", 17), strings.Repeat("0123456789abcdef", 4), "abcdefgh\"ijklmnop", "abcdefgh\nijklmnopq", strings.Repeat("a", 40)+"\x01")
 	values = append(values, `a"b`, "ab\ncd", `""`, "a b", "\x00\x7f", `x"`, `"x`, "tab\there", "\r\n", "a\"\"b", "~}|{")
 	// every character after each kind of predecessor (printable, control,
 	// double quote) and before a printable one: the printer's only state is
@@ -958,4 +963,15 @@ func asciiPrintsReadable(p *Prog, fn *ssa.Function) (detail string, decided, goo
 		return strings.Join(firstN(bad, 4), "; "), true, false
 	}
 	return fmt.Sprintf("evaluated on each of the 128 ASCII characters alone, on each of them after a printable character, a control character and a double quote, and on %d mixed strings, the printed text read by the SML rules (quoted runs ending at the next '\"' without line breaks, number codes) gives back the value", len(values)-128-3*128), true, true
+}
+
+// onlyIndexedOrSliced: every recorded use of the value is an index or slice
+// expression (a piece of it), never the value as a whole.
+func onlyIndexedOrSliced(leaks []string) bool {
+	for _, l := range leaks {
+		if !strings.HasPrefix(l, "used by *ssa.Index") && !strings.HasPrefix(l, "used by *ssa.Slice") {
+			return false
+		}
+	}
+	return true
 }
